@@ -128,6 +128,55 @@ def path_independence():
     return n, fails
 
 
+def time_entry_paths():
+    """An ISO time given as a string is stored as the same datetime through every entry path that accepts one (typed
+    factory, convenience method, set_time, new_record, add_attributes), and re-adding it through another path is a no-op;
+    the expected instant comes from datetime.fromisoformat, not from the library."""
+    import prov.model as M
+    from harness.progs import TIME_STRS, N_VALID_TIME_STRS
+    fails = []
+    n = 0
+
+    def stored(r, name):
+        return [(v.isoformat() if isinstance(v, datetime.datetime) else repr(v)) for v in r.get_attribute(name)]
+    for s in TIME_STRS[:N_VALID_TIME_STRS] + ["2001-02-03T04:05:06.000007", "1999-12-11T10:09:08-03:00"]:
+        want = datetime.datetime.fromisoformat(s.replace("Z", "+00:00"))
+        paths = {}
+
+        def doc():
+            d = M.ProvDocument()
+            d.add_namespace("ex", "http://example.org/")
+            return d
+        try:
+            d = doc(); r = d.generation("ex:e", "ex:a", time=s); paths["factory"] = (r, "prov:time")
+            d = doc(); r = d.activity("ex:a", startTime=s); paths["activity factory"] = (r, "prov:startTime")
+            d = doc(); r = d.activity("ex:a"); r.set_time(s, None); paths["set_time"] = (r, "prov:startTime")
+            d = doc(); e = d.entity("ex:e"); e.wasGeneratedBy("ex:a", time=s); paths["convenience method"] = (d.get_records()[-1], "prov:time")
+            d = doc(); r = d.new_record(M.PROV_GENERATION, None, {M.PROV_ATTR_ENTITY: "ex:e", M.PROV_ATTR_TIME: s}); paths["new_record"] = (r, "prov:time")
+            d = doc(); r = d.generation("ex:e", "ex:a"); r.add_attributes({M.PROV_ATTR_TIME: s}); paths["add_attributes"] = (r, "prov:time")
+        except Exception as e:
+            fails.append({"what": "an entry path refused a valid ISO time", "time": s, "exc": repr(e)[:200]})
+            continue
+        for name, (r, attr) in paths.items():
+            n += 1
+            got = list(r.get_attribute(attr))
+            if len(got) != 1 or not isinstance(got[0], datetime.datetime) or got[0] != want or got[0].utcoffset() != want.utcoffset() \
+                    or got[0].replace(tzinfo=None) != want.replace(tzinfo=None):
+                fails.append({"what": "an ISO time string is stored as another datetime", "path": name, "time": s, "stored": stored(r, attr)})
+        # the same time again through add_attributes is a no-op on every record
+        for name, (r, attr) in paths.items():
+            n += 1
+            before = stored(r, attr)
+            try:
+                r.add_attributes({attr: s})
+            except Exception as e:
+                fails.append({"what": "re-adding the same time through add_attributes is refused", "first_path": name, "time": s, "exc": repr(e)[:200]})
+                continue
+            if stored(r, attr) != before:
+                fails.append({"what": "re-adding the same time changed the record", "first_path": name, "time": s})
+    return n, fails
+
+
 def nontrivial(ops):
     return sum(1 for o in ops if o[0] in ("NewRecord", "Factory", "AddAttrs", "SetTime", "AddType")) >= 3
 
@@ -153,6 +202,23 @@ def fixed_programs():
                 out.append(head + [["NewRecord", ["d", "0"], kind, ["S", "ex:r"], [[q, v1], [k2, w]]]])
                 out.append(head + [["NewRecord", ["d", "0"], kind, ["S", "ex:r"], [[["S", "ex:k"], ["int", "1"]]]],
                                    ["AddAttrs", ["r", ["d", "0"], "0"], [[q, v1], [["S", "ex:k"], ["int", "2"]], [k2, w]]]])
+    # one ISO time with day <= 12 (where a day/month mix-up shows) through every entry path that takes a time as a string:
+    # typed factory, element convenience method, set_time, new_record, add_attributes; re-adding it is a no-op
+    ts = ["str", "2012-03-04T05:06:07"]
+    tq = ["Q", "prov", PROVU, "time"]
+    head = [["NewDoc"], ["AddNs", ["d", "0"], "ex", EXU]]
+    out.append(head + [["Factory", ["d", "0"], "generation", "none", [["entity", ["str", "ex:e"]], ["activity", ["str", "ex:a"]], ["time", ts]], []],
+                       ["AddAttrs", ["r", ["d", "0"], "0"], [[tq, ts]]],
+                       ["NewRecord", ["d", "0"], "Generation", "none", [[["Q", "prov", PROVU, "entity"], ["str", "ex:e"]], [["Q", "prov", PROVU, "activity"], ["str", "ex:a"]], [tq, ts]]]])
+    out.append(head + [["Factory", ["d", "0"], "activity", ["S", "ex:a"], [["startTime", ts], ["endTime", ["str", "2013-10-02T00:00:00+02:00"]]], []],
+                       ["AddAttrs", ["r", ["d", "0"], "0"], [[["Q", "prov", PROVU, "startTime"], ts]]],
+                       ["SetTime", ["r", ["d", "0"], "0"], ts, ["str", "2013-10-02T00:00:00+02:00"]]])
+    out.append(head + [["NewRecord", ["d", "0"], "Activity", ["S", "ex:a"], []],
+                       ["SetTime", ["r", ["d", "0"], "0"], ts, "none"],
+                       ["AddAttrs", ["r", ["d", "0"], "0"], [[["Q", "prov", PROVU, "startTime"], ts]]]])
+    out.append(head + [["NewRecord", ["d", "0"], "Entity", ["S", "ex:e"], []],
+                       ["ElemMethod", ["r", ["d", "0"], "0"], "wasGeneratedBy", [["activity", ["str", "ex:a"]], ["time", ts]], []],
+                       ["AddAttrs", ["r", ["d", "0"], "1"], [[tq, ts]]]])
     # names given as full URIs (string and Identifier) whose local part holds the namespace URI once more, or the
     # URI of another declared namespace: the name found must have exactly that URI
     for u in (EXU + "x/" + EXU + "y", EXU + EXU, EXU + "a?u=http://zz.test/b", "http://zz.test/" + EXU + "z"):
@@ -178,6 +244,9 @@ def run(tier, seed, log, model_runs=True, enlarged=False):
                         extra_cases=fixed_programs(),
                         theorem_note="C05_* over Record.add_attributes")
     n, fails = path_independence()
+    n2, fails2 = time_entry_paths()
+    n += n2
+    fails = fails + fails2
     res["coverage"]["entry_path_cases"] = n
     for f in fails[:3]:
         res["violations"].append({"kind": "failing-input", "failure": f, "program": None})
